@@ -841,15 +841,14 @@ impl<'de> de::VariantAccess<'de> for MapEnumDeserializer {
                     Err(Error::custom(format!("expected tuple with length {len}")))
                 }
             }
-            Value::Table(values) => {
-                let tuple_values: Result<Vec<_>, _> = values
-                    .into_iter()
-                    .enumerate()
-                    .map(|(index, (key, value))| match key.parse::<usize>() {
-                        Ok(key_index) if key_index == index => Ok(value),
-                        Ok(_) | Err(_) => Err(Error::custom(format!(
-                            "expected table key `{index}`, but was `{key}`"
-                        ))),
+            Value::Table(mut values) => {
+                // Look the fields up by index: the iteration order of the map depends on the
+                // `preserve_order` feature (`10` sorts before `2`)
+                let tuple_values: Result<Vec<_>, _> = (0..values.len())
+                    .map(|index| {
+                        values.remove(index.to_string().as_str()).ok_or_else(|| {
+                            Error::custom(format!("expected table key `{index}`"))
+                        })
                     })
                     .collect();
                 let tuple_values = tuple_values?;
